@@ -3,6 +3,7 @@
 
 pub mod master;
 pub mod outstation;
+pub mod pair;
 
 use crate::verif::io::{self, Pipe};
 use crate::verif::refcodec::app as ra;
